@@ -84,7 +84,8 @@ def load_known():
 
 
 def write_evidence(pid, tier, seed, rep, wall, violations, known_hit, error=None):
-    os.makedirs(os.path.join(VERIF, 'evidence'), exist_ok=True)
+    evdir = os.environ.get('QV_EVIDENCE_DIR') or os.path.join(VERIF, 'evidence')
+    os.makedirs(evdir, exist_ok=True)
     distinct = len({(o['rule'], o['site']) for o in rep.obs})
     discharged = sum(1 for o in rep.obs if o['verdict'] == 'holds')
     samples = rep.obs[:6] + [o for o in rep.obs if o['verdict'] != 'holds'][:6]
@@ -117,7 +118,7 @@ def write_evidence(pid, tier, seed, rep, wall, violations, known_hit, error=None
     }
     if error:
         ev['coverage']['analysis_error'] = error
-    with open(os.path.join(VERIF, 'evidence', '%s.json' % pid), 'w') as fh:
+    with open(os.path.join(evdir, '%s.json' % pid), 'w') as fh:
         json.dump(ev, fh, indent=1, sort_keys=True)
 
 
@@ -170,7 +171,7 @@ def main():
             print('  ', o['verdict'], o['rule'], o['site'], o['detail'])
     write_evidence(pid, tier, seed, rep, time.time() - t0, len(new), hit)
     if new:
-        rdir = os.path.join(VERIF, '.cache', 'replay')
+        rdir = os.environ.get('QV_REPLAY_DIR') or os.path.join(VERIF, '.cache', 'replay')
         os.makedirs(rdir, exist_ok=True)
         for i, v in enumerate(new):
             path = os.path.join(rdir, '%s-%d.json' % (pid, i))
